@@ -239,6 +239,7 @@ TWIN_FILES = {
 # ---------------------------------------------------------------------------------
 TEXTUAL = [
     # prop, id, file, old, new
+    ('C05', 'nndsvd-zero-pair-not-skipped', 'tensorly/tenalg/svd.py', '        elif m_n > 0:\n', '        elif m_n >= 0:\n'),
     ('C04', 'cp-normalize-threshold-guard', 'tensorly/cp_tensor.py', '        scales_non_zero = T.where(\n            scales == 0, T.ones(T.shape(scales), **T.context(factor)), scales\n        )\n        weights = weights * scales\n', '        scales_non_zero = T.where(\n            scales < 1e-12, T.ones(T.shape(scales), **T.context(factor)), scales\n        )\n        weights = weights * scales\n'),
     ('C04', 'cp-normalize-guard-branches-swapped', 'tensorly/cp_tensor.py', '        scales_non_zero = T.where(\n            scales == 0, T.ones(T.shape(scales), **T.context(factor)), scales\n        )\n        weights = weights * scales\n', '        scales_non_zero = T.where(\n            scales != 0, T.ones(T.shape(scales), **T.context(factor)), scales\n        )\n        weights = weights * scales\n'),
     ('C14', 'tucker-user-init-orthonormalised', 'tensorly/decomposition/_tucker.py', '        (core, factors) = init\n        factors = list(factors)\n', '        (core, factors) = init\n        factors = [tl.qr(f)[0] for f in factors]\n'),
@@ -480,6 +481,7 @@ def gen_textual() -> List[Variant]:
 
 
 TEXTUAL_TWINS = [
+    ('C05', 'nndsvd-guard-operands-swapped', 'tensorly/tenalg/svd.py', '        elif m_n > 0:\n', '        elif 0 < m_n:\n'),
     ('C04', 'cp-normalize-guard-as-positive-test', 'tensorly/cp_tensor.py', '        scales_non_zero = T.where(\n            scales == 0, T.ones(T.shape(scales), **T.context(factor)), scales\n        )\n        weights = weights * scales\n', '        scales_non_zero = T.where(\n            scales > 0, scales, T.ones(T.shape(scales), **T.context(factor))\n        )\n        weights = weights * scales\n'),
     ('C04', 'cp-normalize-guard-zero-on-the-left', 'tensorly/cp_tensor.py', '        scales_non_zero = T.where(\n            scales == 0, T.ones(T.shape(scales), **T.context(factor)), scales\n        )\n        weights = weights * scales\n', '        scales_non_zero = T.where(\n            0 == scales, T.ones(T.shape(scales), **T.context(factor)), scales\n        )\n        weights = weights * scales\n'),
     ('C05', 'symeig-floor-by-keyword', 'tensorly/tenalg/svd.py', '        S = tl.sqrt(tl.clip(S, tl.eps(S.dtype)))\n        V = tl.dot(tl.transpose(matrix), U / tl.reshape(S, (1, -1)))', '        floor = tl.eps(S.dtype)\n        S = tl.sqrt(tl.clip(S, a_min=floor))\n        V = tl.dot(tl.transpose(matrix), U / tl.reshape(S, (1, -1)))'),
